@@ -91,7 +91,25 @@ def body():
             drifted = []
             try:
                 g = rg.check_grid(api, ob, fail, drifted.append)
-                rg.check_derived(api, ob, g, fail)
+                rg.check_derived(api, ob, g, fail, big=(nobl % 40 == 0))
+                # vertices that no element uses (here: two appended at the end) are legal input: same tables, empty rows for them
+                if nobl % 9 == 0:
+                    nv0 = g.number_of_vertices
+                    Vx = np.hstack([g.vertices, np.array([[50.0, 51.0], [50.0, 50.0], [50.0, 50.0]])])
+                    gx = api.Grid(Vx, g.elements, g.domain_indices)
+                    vnx = gx.vertex_neighbors
+                    if gx.number_of_vertices != nv0 + 2 or vnx.indexptr.shape[0] != nv0 + 3 or gx.element_to_vertex_matrix.shape != (nv0 + 2, g.number_of_elements):
+                        fail("unused_vertices", "grid with 2 unused trailing vertices: %d vertices, %d index pointers in vertex_neighbors, element_to_vertex_matrix of shape %s" % (
+                            gx.number_of_vertices, vnx.indexptr.shape[0], gx.element_to_vertex_matrix.shape))
+                    else:
+                        rows0, rowsx = rg.index_list(g.vertex_neighbors, nv0), rg.index_list(vnx, nv0 + 2)
+                        if rowsx[:nv0] != rows0 or rowsx[nv0] or rowsx[nv0 + 1]:
+                            fail("unused_vertices", "vertex_neighbors changes when unused vertices are appended")
+                        if not np.array_equal(gx.edges, g.edges) or not np.array_equal(gx.element_neighbors.indices, g.element_neighbors.indices) or \
+                                not np.array_equal(gx.edge_adjacency, g.edge_adjacency) or not np.array_equal(gx.vertex_adjacency, g.vertex_adjacency):
+                            fail("unused_vertices", "edge / adjacency tables change when unused vertices are appended")
+                        if np.any(gx.vertex_on_boundary[nv0:]) or not np.array_equal(gx.vertex_on_boundary[:nv0], g.vertex_on_boundary):
+                            fail("unused_vertices", "boundary flags change when unused vertices are appended")
                 # dtype / memory-order variants must give identical tables
                 if nobl % 7 == 0:
                     for dt, order, vdt in (("int32", "C", "float64"), ("int64", "F", "int64"), ("float64", "C", "float32")):
